@@ -180,6 +180,8 @@ def trace_operand(body, op, depth=0, through_calls=True, _seen=None):
         c = op.const
         if "fn" in c:
             return AP(("fn", c["fn"]))
+        if "static" in c:
+            return AP(("static", c["static"]))
         if "uneval" in c and "promoted" not in c:
             return AP(("static", c["uneval"]))
         if "promoted" in c and "bytes" not in c and "str" not in c:
